@@ -32,14 +32,42 @@ def concat(ts):
     return z3.Concat(*ts)
 
 
-def nonempty(t):
-    if z3.is_const(t) and not z3.is_string_value(t):
-        return z3.Not(z3.InRe(t, lit('')))
-    return z3.Length(t) > 0
+def regular_var(t):
+    return z3.is_const(t) and not z3.is_string_value(t)
+
+
+def is_regular(v):
+    """v is a string variable, or the suffix view s[k:] of one: predicates on it stay regular."""
+    if isinstance(v, VLazySuffix):
+        return regular_var(v.base)
+    return isinstance(v, (VStr, VBytes)) and regular_var(v.term)
+
+
+def eps_in(R):
+    return z3.is_true(z3.simplify(z3.InRe(z3.StringVal(''), R)))
+
+
+def member(v, R):
+    """v in L(R) as a constraint on the underlying string variable."""
+    if isinstance(v, VLazySuffix):
+        k = v.k
+        if k == 0:
+            return z3.InRe(v.base, R)
+        main = z3.InRe(v.base, z3.Concat(z3.Loop(CH, k, k), R))
+        if eps_in(R):            # base shorter than k: the view is '' which is in R
+            return z3.Or(main, z3.InRe(v.base, len_re(ast.Lt(), k)))
+        return main
+    return z3.InRe(v.term, R)
+
+
+def nonempty(v):
+    if is_regular(v):
+        return z3.Not(member(v, lit('')))
+    return z3.Length(v.term) > 0
 
 
 def len_re(op, k):
-    """regex of strings whose length `op` k (k concrete int)."""
+    """regex of strings whose length `op` k (k concrete int).  NB z3: Loop(r, lo, 0) is unbounded."""
     if isinstance(op, ast.Gt): op, k = ast.GtE(), k + 1
     if isinstance(op, ast.Lt): op, k = ast.LtE(), k - 1
     if isinstance(op, ast.GtE):
@@ -60,17 +88,17 @@ _FLIP = {ast.Gt: ast.Lt, ast.Lt: ast.Gt, ast.GtE: ast.LtE, ast.LtE: ast.GtE, ast
 
 
 def int_compare(op, a, b, len_a=None, len_b=None):
-    """a `op` b on Int terms; len(<string variable>) against a constant goes to InRe."""
+    """a `op` b on Int terms; len(<regular string value>) against a constant goes to InRe.
+    len_a / len_b: the string VALUE whose length a / b is (provenance), or None."""
     if len_b is not None and len_a is None:
         return int_compare(_FLIP[type(op)](), b, a, len_b, None)
-    if len_a is not None and z3.is_int_value(z3.simplify(b)) and z3.is_const(len_a) and not z3.is_string_value(len_a):
+    if len_a is not None and z3.is_int_value(z3.simplify(b)) and is_regular(len_a):
         k = z3.simplify(b).as_long()
         if isinstance(op, ast.NotEq):
-            r = len_re(ast.Eq(), k)
-            return z3.Not(z3.InRe(len_a, r))
+            return z3.Not(member(len_a, len_re(ast.Eq(), k)))
         r = len_re(op, k)
         if r is not None:
-            return z3.InRe(len_a, r)
+            return member(len_a, r)
     if isinstance(op, ast.Eq): return a == b
     if isinstance(op, ast.NotEq): return a != b
     if isinstance(op, ast.Lt): return a < b
@@ -80,69 +108,75 @@ def int_compare(op, a, b, len_a=None, len_b=None):
     return None
 
 
-def regular_var(t):
-    return z3.is_const(t) and not z3.is_string_value(t)
+def contains_v(hay_v, needle):
+    """`needle in hay` on values."""
+    if is_regular(hay_v) and is_const(needle):
+        return member(hay_v, z3.Concat(ANY, lit(const_of(needle)), ANY))
+    return z3.Contains(hay_v.term, needle)
 
 
-def contains(hay, needle):
-    if regular_var(hay) and is_const(needle):
-        return z3.InRe(hay, z3.Concat(ANY, lit(const_of(needle)), ANY))
-    return z3.Contains(hay, needle)
+def startswith(s_v, pre):
+    if is_regular(s_v) and is_const(pre):
+        return member(s_v, z3.Concat(lit(const_of(pre)), ANY))
+    return z3.PrefixOf(pre, s_v.term)
 
 
-def startswith(s, pre):
-    if regular_var(s) and is_const(pre):
-        return z3.InRe(s, z3.Concat(lit(const_of(pre)), ANY))
-    return z3.PrefixOf(pre, s)
-
-
-def endswith(s, suf):
-    if regular_var(s) and is_const(suf):
-        return z3.InRe(s, z3.Concat(ANY, lit(const_of(suf))))
-    return z3.SuffixOf(suf, s)
+def endswith(s_v, suf):
+    if is_regular(s_v) and is_const(suf):
+        return member(s_v, z3.Concat(ANY, lit(const_of(suf))))
+    return z3.SuffixOf(suf, s_v.term)
 
 
 def str_equal(a, b):
-    """a == b for two VStr/VBytes; a character taken from a string variable compared with a
-    constant character becomes a regular constraint on that variable."""
+    """a == b for two VStr/VBytes; a character taken from a regular string value compared with a
+    constant character becomes a regular constraint on that value."""
     for x, y in ((a, b), (b, a)):
         ca = getattr(x, 'char_at', None)
-        if ca is not None and is_const(y.term) and regular_var(ca[0]):
+        if ca is not None and is_const(y.term) and is_regular(ca[0]):
             c = const_of(y.term)
             if len(c) != 1:
                 return z3.BoolVal(False)
             if ca[1] == 'first':
-                return z3.InRe(ca[0], z3.Concat(lit(c), ANY))
+                return member(ca[0], z3.Concat(lit(c), ANY))
             if ca[1] == 'last':
-                return z3.InRe(ca[0], z3.Concat(ANY, lit(c)))
+                return member(ca[0], z3.Concat(ANY, lit(c)))
+    for x, y in ((a, b), (b, a)):
+        if is_regular(x) and isinstance(x, VLazySuffix) and is_const(y.term):
+            return member(x, lit(const_of(y.term)))
     return a.term == b.term
 
 
 def index(I, obj, idx):
     """obj[idx] for str/bytes (bytes indexing yields an int)."""
     ctx = I.ctx
+    conc = I.is_concrete_int(idx)
+    where = None
+    reg = is_regular(obj)
+    if conc:
+        k = I.concrete_int(idx)
+        if reg:
+            ok = member(obj, len_re(ast.GtE(), -k if k < 0 else k + 1))
+        else:
+            n = z3.Length(obj.term)
+            ok = n >= (-k if k < 0 else k + 1)
+        if k == -1: where = 'last'
+        if k == 0: where = 'first'
+    else:
+        n = z3.Length(obj.term)
+        ok = z3.And(idx.term >= 0, idx.term < n)
+    if not ctx.branch(ok):
+        I.raise_py(IndexError)
+    if reg and where and isinstance(obj, VStr):
+        return VLazyChar(obj, where)
     t = obj.term
     n = z3.Length(t)
     it = idx.term
-    conc = I.is_concrete_int(idx)
-    where = None
-    if conc:
-        k = I.concrete_int(idx)
-        if k < 0:
-            ok = int_compare(ast.GtE(), n, z3.IntVal(-k), t)
-            it = n + k
-            if k == -1: where = 'last'
-        else:
-            ok = int_compare(ast.Gt(), n, z3.IntVal(k), t)
-            if k == 0: where = 'first'
-    else:
-        ok = z3.And(it >= 0, it < n)
-    if not ctx.branch(ok):
-        I.raise_py(IndexError)
+    if conc and k < 0:
+        it = n + k
     ch = z3.SubString(t, it, 1)
     if isinstance(obj, VBytes):
         return VInt(z3.StrToCode(ch))
-    return VStr(ch, char_at=(t, where) if where else None)
+    return VStr(ch, char_at=(obj, where) if where else None)
 
 
 def slice_(ctx, t, lo, hi, lo_const=True, hi_const=True):
@@ -232,6 +266,6 @@ def from_python_re(pat):
     return out[0] if len(out) == 1 else z3.Concat(*out)
 
 
-def re_search(s, pattern):
+def re_search(s_v, pattern):
     r = from_python_re(pattern)
-    return z3.InRe(s, z3.Concat(ANY, r, ANY))
+    return member(s_v, z3.Concat(ANY, r, ANY))
